@@ -1,6 +1,7 @@
 //! C20: drives the public ValidateSNI layer around a recording inner service.
 //!
-//! case line: <version 10|11|2> <host header hex|-|+hex,hex (several)> <uri> <tls none|nosni|sni:hex>
+//! case line: <version 10|11|2> <host header hex|-|+hex,hex (several)> <uri> <tls none|nosni|sni:hex> [<premarked 0|1>]
+//!   premarked 1: the TlsConnectionInfo arrives with validated_server_name already true
 //! output:    <hdr authority parse ok? host|!|-> <uri authority host|-> <sni authority host|!|-> ;; FWD <validated 0|1> | REJ Invalid | REJ Missing | PANIC
 use std::sync::{Arc, Mutex};
 
@@ -42,18 +43,19 @@ fn run_case(line: &str) -> String {
         Ok(r) => r,
         Err(_) => return "- - - ;; BADREQ".into(),
     };
+    let pre = f.get(4).map(|x| *x == "1").unwrap_or(false);
     let mut sni_dec = "-".to_string();
     match f[3] {
         "none" => {}
         "nosni" => {
-            req.extensions_mut().insert(TlsConnectionInfo { server_name: None, validated_server_name: false, alpn: None });
+            req.extensions_mut().insert(TlsConnectionInfo { server_name: None, validated_server_name: pre, alpn: None });
         }
         s => {
             let name = unhex(&s[4..]);
             sni_dec = auth_host(&name);
             req.extensions_mut().insert(TlsConnectionInfo {
                 server_name: Some(String::from_utf8_lossy(&name).to_string()),
-                validated_server_name: false,
+                validated_server_name: pre,
                 alpn: None,
             });
         }
